@@ -260,7 +260,7 @@ pub fn enc_answer(tok: &Kitoken, text: &str, specials: bool) -> (String, String)
     };
     (a, ora)
 }
-fn ids_str(v: &[u32]) -> String {
+pub fn ids_str(v: &[u32]) -> String {
     ids(v)
 }
 pub fn dec_answer(tok: &Kitoken, tokens: &[u32], specials: bool) -> (String, String) {
